@@ -67,6 +67,7 @@ using Chans = std::vector<Sig>;
 struct Unit
 {
     std::string proc;
+    std::string name;                         // class name (prefix factories)
     std::function<void(Json&)> params;        // extra New fields
     std::function<Chans(const Chans&)> run;   // may throw
     int gran{1};
@@ -290,6 +291,7 @@ static Factory f_other(const char* name, int gran, long num, long den, int nin, 
     return [=] {
         Unit u;
         u.proc = "other";
+        u.name = nm;
         u.gran = gran;
         u.num = num;
         u.den = den;
@@ -804,6 +806,29 @@ static void run_long(Json& js, vh::Rng& rng, long budget, size_t maxlen) {
     }
 }
 
+// one call far beyond 65535 samples against the same stream in frames of at most 8192 granules: index arithmetic of the
+// filters and converters must not depend on the call length
+static void run_huge(Json& js, vh::Rng& rng, long budget) {
+    for (long t = 0; t < budget; ++t) {
+        auto facs = prefix_factories(rng, true);
+        for (const auto& fac : facs) {
+            Unit probe = fac();
+            if (probe.name.rfind("FIR", 0) != 0 && probe.name.rfind("Fir", 0) != 0 && probe.name.rfind("Fft", 0) != 0) {
+                continue;
+            }
+            const size_t n = (size_t)rng.range(70000, 140000);
+            Live L = start_prefix(js, fac, rng, std::max<size_t>(4, n / probe.gran));
+            const size_t total = L.stream[0].size();
+            while (L.pos < total) {
+                const size_t left = (total - L.pos) / L.u.gran;
+                const size_t fg = std::max<size_t>(1, std::min<size_t>(left, (size_t)rng.range(1, 8192)));
+                step_prefix(js, L, fg * L.u.gran);
+            }
+            js.begin("Drop").num("id", L.id).end();
+        }
+    }
+}
+
 
 // ================================================================ C07 / C08 specific modes
 static std::vector<long> struct_taps(vh::Rng& rng, int n, int kind, int amp) {
@@ -1307,6 +1332,8 @@ int main(int argc, char** argv) {
         }
     } else if (mode == "long") {
         run_long(js, rng, budget, maxlen);
+    } else if (mode == "huge") {
+        run_huge(js, rng, budget);
     } else if (mode == "fir7") {
         run_fir7(js, rng, sets, k);
     } else if (mode == "equiv") {
